@@ -207,6 +207,28 @@ theorem meditascii_roundtrip_tokens (F : NumFmt) (ok : NumFmtOK F) (m : Mesh) (g
     parseTokens F (writeTokens F m) = .ok m :=
   parse_writeTokens F ok m g
 
+/-- Non-vacuity: a number syntax meeting the contract exists (one symbol per
+number), and the sample mesh meets `GoodMeshA`. -/
+def toyFmt : NumFmt where
+  showU n := [n]
+  showI i := [ofI64 i]
+  showF x := [x]
+  parseUT s := s.head?
+  parseU s := s.head?
+  parseI s := s.head?.map toI64
+  parseF s := s.head?
+
+example : NumFmtOK toyFmt :=
+  ⟨fun _ _ => rfl, fun _ _ => rfl,
+   fun i h => by simp [toyFmt, toI64_ofI64 i h.1 h.2], fun _ _ => rfl, ⟨50, rfl⟩⟩
+
+example : GoodMeshA sampleMesh := by
+  refine ⟨by decide, by decide, by decide, by decide, by decide, by decide, ?_⟩
+  intro b hb
+  simp only [sampleMesh, List.mem_cons, List.not_mem_nil, or_false] at hb
+  rcases hb with rfl | rfl | rfl | rfl <;>
+    exact ⟨by decide, by decide, by decide, by decide, by decide⟩
+
 /-! ### format detection -/
 
 /-- `Mesh::from_reader` sends the binary writer's output to `parse_binary`
